@@ -328,6 +328,7 @@ struct Utxo {
     sep_in_branch: bool,
     n_seps: usize,
     compressed: bool,
+    multisig_uncompressed: bool,
     /// none | top-level | in-branch | after-branch
     sep_class: &'static str,
 }
@@ -373,7 +374,7 @@ fn build_utxo(u: &Value) -> Option<Utxo> {
         _ => {
             items.push(vec![0x50 + m as u8]);
             for k in &keys {
-                items.push(push(&pubkey_bytes(*k, true)));
+                items.push(push(&pubkey_bytes(*k, !jbool(u, "multisig_uncompressed"))));
             }
             items.push(vec![0x50 + keys.len() as u8]);
             items.push(vec![if verify { 0xaf } else { 0xae }]);
@@ -389,7 +390,14 @@ fn build_utxo(u: &Value) -> Option<Utxo> {
         let base_len: usize = items.iter().map(|i| i.len()).sum::<usize>() + if verify { 1 } else { 0 };
         // ballast costs payload + 2 (PUSHDATA1 prefix) + 1 (OP_DROP) for payloads of 76..=255 bytes
         let want = pad_to as i64 - base_len as i64 - 3;
-        pad = if (76..=255).contains(&want) { want as usize } else { 0 };
+        pad = if (76..=255).contains(&want) {
+            want as usize
+        } else if (256..=65535).contains(&(want - 1)) {
+            // PUSHDATA2 prefix is one byte longer
+            (want - 1) as usize
+        } else {
+            0
+        };
     }
     if pad > 0 {
         let mut p = vec![];
@@ -454,7 +462,8 @@ fn build_utxo(u: &Value) -> Option<Utxo> {
     } else {
         "none"
     };
-    Some(Utxo { family, m, keys, verify, value: ju64s(u, "value"), txid: jhex(u, "txid"), vout: ju64(u, "vout") as u32, lock, subscript, subscript_first, sep_in_branch: last_is_branch, n_seps: seps.len(), compressed, sep_class })
+    let (txid, vout) = if jbool(u, "coinbase_like") { (vec![0u8; 32], 0xffff_ffffu32) } else { (jhex(u, "txid"), ju64(u, "vout") as u32) };
+    Some(Utxo { family, m, keys, verify, value: ju64s(u, "value"), txid, vout, lock, subscript, subscript_first, sep_in_branch: last_is_branch, n_seps: seps.len(), compressed, multisig_uncompressed: jbool(u, "multisig_uncompressed"), sep_class })
 }
 
 struct SigRec {
@@ -506,7 +515,7 @@ impl SpendNet {
             }
             _ => "006a0401020304".to_string(),
         };
-        json!({"value": u64s(match rng.below(4) { 0 => 0, 1 => u64::MAX, _ => rng.below(1 << 44) }), "script": s})
+        json!({"value": u64s(match rng.below(6) { 0 => 0, 1 => u64::MAX, 2 => 1u64 << 63, 3 => (1u64 << 63) - 1, _ => rng.below(1 << 44) }), "script": s})
     }
 }
 
@@ -537,13 +546,17 @@ impl Scenario for SpendNet {
             let mut keys: Vec<u64> = (0..KEYS.len() as u64).collect();
             rng.shuffle(&mut keys);
             keys.truncate(n as usize);
+            if family == "multisig" && n >= 2 && rng.chance(1, 10) {
+                // the same public key listed twice in the script
+                keys[1] = keys[0];
+            }
             let n_seps = rng.weighted(&[60, 25, 15]);
             let seps: Vec<u64> = (0..n_seps).map(|_| rng.below(8)).collect();
             let mut txid = rng.bytes(32);
             txid[0] = u as u8;
             utxos.push(json!({"family": family, "m": rng.range(1, n), "keys": keys, "verify": rng.chance(1, 3), "uncompressed": rng.chance(1, 5), "seps": seps,
-                "sep_in_branch": rng.chance(1, 12), "branch_at": rng.below(8), "pad": if rng.chance(1, 4) { *rng.pick(&[1u64, 75, 76, 200, 255, 256, 300]) } else { 0 }, "pad_to": if rng.chance(1, 8) { *rng.pick(&[252u64, 253, 254]) } else { 0 },
-                "branch_form": rng.below(3), "value": u64s(match rng.below(4) { 0 => 0, 1 => u64::MAX, _ => rng.below(1 << 44) }), "txid": hx(&txid), "vout": rng.below(3)}));
+                "sep_in_branch": rng.chance(1, 12), "branch_at": rng.below(8), "pad": if rng.chance(1, 4) { *rng.pick(&[1u64, 75, 76, 200, 255, 256, 300]) } else { 0 }, "pad_to": if rng.chance(1, 8) { *rng.pick(&[252u64, 253, 254, 252, 253, 65535, 65536, 65537]) } else { 0 },
+                "branch_form": rng.below(3), "multisig_uncompressed": rng.chance(1, 8), "coinbase_like": rng.chance(1, 30), "value": u64s(match rng.below(4) { 0 => 0, 1 => u64::MAX, _ => rng.below(1 << 44) }), "txid": hx(&txid), "vout": rng.below(3)}));
         }
         let mut events = vec![json!({"op": "setup", "utxos": utxos, "version": *rng.pick(&[1u32, 2, 0, u32::MAX]), "locktime": *rng.pick(&[0u32, 1, 499_999_999, u32::MAX])})];
         let n_events = rng.range(6, 40);
@@ -556,6 +569,10 @@ impl Scenario for SpendNet {
             }
             f
         };
+        // rarely a transaction whose input or output COUNT sits at the compact-size boundary
+        if rng.chance(1, 40) {
+            events.push(json!({"op": if rng.chance(1, 2) { "bulk_outputs" } else { "bulk_inputs" }, "n": *rng.pick(&[248u64, 250, 251, 252, 253])}));
+        }
         // most runs first assemble something signable
         let early_build = rng.chance(3, 4);
         if early_build {
@@ -744,6 +761,37 @@ impl Scenario for SpendNet {
                     ins.push(InState { sigs: vec![], fin: None });
                     shipped = None;
                 }
+                "bulk_outputs" | "bulk_inputs" => {
+                    // counts around the 252/253 compact-size boundary (only once per run: keeps runs cheap)
+                    let n = jusize(ev, "n").min(260);
+                    if m.outs.len() + m.ins.len() > 12 || utxos.is_empty() {
+                        ctx.skip();
+                        continue;
+                    }
+                    ctx.event(seq, &op, "");
+                    ctx.probe("bulk_count_near_253");
+                    if op == "bulk_outputs" {
+                        let sc = Script::from_bytes(&[0x51]).unwrap_or_default();
+                        let outs: Vec<TxOut> = (0..n).map(|k| TxOut::new(k as u64, &sc)).collect();
+                        lib!("add_outputs", tx.add_outputs(outs));
+                        for k in 0..n {
+                            m.outs.push(MO { value: k as u64, script: vec![0x51] });
+                        }
+                    } else {
+                        let ut = utxos[0].clone();
+                        let mut tis = vec![];
+                        for k in 0..n {
+                            let mut txid = vec![0xEEu8; 32];
+                            txid[0] = (k & 0xff) as u8;
+                            txid[1] = (k >> 8) as u8;
+                            tis.push(TxIn::new(&txid, k as u32, &Script::default(), Some(0xffff_ff00 | (k as u32 & 0xff))));
+                            m.ins.push(MI { txid, vout: k as u32, seq: 0xffff_ff00 | (k as u32 & 0xff), utxo: 0, declared: ut.value });
+                            ins.push(InState { sigs: vec![], fin: None });
+                        }
+                        lib!("add_inputs", tx.add_inputs(tis));
+                    }
+                    shipped = None;
+                }
                 "add_output" => {
                     if m.outs.len() >= 4 {
                         ctx.skip();
@@ -905,8 +953,8 @@ impl Scenario for SpendNet {
                         duplicate = true;
                     }
                     if jstr(ev, "order") == "desc" && chosen.len() > 1 {
+                        // whether this breaks the order is decided below by matching signatures against key positions
                         chosen.reverse();
-                        order_ok = false;
                     }
                     ctx.event(seq, "finalise", &ut.family);
                     let first = &ins[i].sigs[chosen[0]];
@@ -991,14 +1039,24 @@ impl Scenario for SpendNet {
                     }
                     // multisig needs ascending key order
                     if ut.family == "multisig" || ut.family == "twostage" {
-                        let order: Vec<usize> = chosen.iter().map(|c| ut.keys.iter().position(|k| *k == ins[i].sigs[*c].key).unwrap_or(99)).collect();
-                        if order.windows(2).any(|w| w[0] >= w[1]) {
-                            order_ok = false;
+                        // signatures must match keys in script order, each key position used at most once
+                        // (a key listed twice may serve two signatures)
+                        let mut last: isize = -1;
+                        for c in &chosen {
+                            let key = ins[i].sigs[*c].key;
+                            match ut.keys.iter().enumerate().position(|(j, k)| (j as isize) > last && *k == key) {
+                                Some(j) => last = j as isize,
+                                None => {
+                                    // a wrong-signer signature is judged by the wrong-signer cause, not by order
+                                    if ut.keys.contains(&key) {
+                                        order_ok = false;
+                                    }
+                                }
+                            }
                         }
                     }
-                    if duplicate {
-                        order_ok = false;
-                    }
+                    let _ = duplicate;
+
                     ins[i].fin = Some(Fin { sigs: chosen, order_ok, tampered: vec![], pristine_unl: unlocking.to_bytes(), pristine_lock: ut.lock.clone() });
                     shipped = None;
                 }
@@ -1148,7 +1206,12 @@ impl Scenario for SpendNet {
                                                 // the pubkey a used signature has to match (a key that no signature uses and that lies
                                                 // before the last separator is legitimately uncommitted)
                                                 let used_key = ins_sig_key;
-                                                let kb = pubkey_bytes(used_key, if ut.family == "multisig" || ut.family == "twostage" { true } else { ut.compressed });
+                                                if ut.keys.iter().filter(|k| **k == used_key).count() != 1 {
+                                                    // the key is listed twice: the other copy still matches
+                                                    ctx.skip();
+                                                    continue;
+                                                }
+                                                let kb = pubkey_bytes(used_key, if ut.family == "multisig" { !ut.multisig_uncompressed } else if ut.family == "twostage" { true } else { ut.compressed });
                                                 let pos = lockb.windows(kb.len()).position(|w| w == kb.as_slice());
                                                 match pos {
                                                     Some(pp) => lockb[pp + 1 + (r as usize / 5) % (kb.len() - 1)] ^= 1 << (r % 8),
